@@ -425,6 +425,18 @@ pub fn c02_cases(rng: &mut Rng, quick: bool) -> Vec<String> {
     } else {
         out.extend(boundary);
         out.extend(single);
+        // node-level (two real nodes) scenarios beyond the three decisive ones of the corpus
+        for ops in [
+            "S.del.0.sigrefs;S.worker",
+            "S.commit.0.master;S.rekey.0.1;S.worker",
+            "S.delcanon;S.worker",
+        ] {
+            out.push(scenario(2, &[0], 1, 5, true, "all", &[], "-", &[ops.to_string()]));
+        }
+        out.push(scenario(3, &[0, 1], 2, 5, true, "all", &[], "-", &["S.commit.1.master;S.rekey.1.0;S.worker".to_string()]));
+        out.push(scenario(3, &[0, 1], 2, 5, true, "all", &[], "-", &["S.delcanon;S.worker".to_string()]));
+        out.push(scenario(2, &[0], 1, 5, false, "all", &[], "-", &["S.commit.1.master;S.resign.1;S.commit.0.master;S.resign.0;S.worker".to_string()]));
+        out.push(scenario(2, &[0], 1, 5, false, "all", &[], "-", &["S.commit.1.master;S.resign.1;S.del.0.sigrefs;S.worker".to_string()]));
     }
     // full product for small n (thorough), a random sample of it in quick
     let mut product = vec![];
